@@ -76,3 +76,164 @@ pub proof fn lemma_messages_step(a: &EmmyLuaAnalysis, ids: Seq<FileId>, i: int)
 {
     assert(messages_for(a, ids.take(i + 1)) =~= messages_for(a, ids.take(i)).push((ids[i], sp_diagnose(a, ids[i]))));
 }
+
+// ---- file selection ---------------------------------------------------------------------------------
+/// what the loop of `get_main_workspace_file_ids` collects from the values it has visited, in visiting order
+pub open spec fn main_of(vals: Seq<ModuleInfo>) -> Seq<FileId>
+    decreases vals.len()
+{
+    if vals.len() == 0 { Seq::empty() }
+    else if vals.last().workspace_id == WorkspaceId::MAIN { main_of(vals.drop_last()).push(vals.last().file_id) }
+    else { main_of(vals.drop_last()) }
+}
+
+pub open spec fn from_main(vals: Seq<ModuleInfo>, f: FileId) -> bool {
+    exists|p: int| 0 <= p < vals.len() && (#[trigger] vals[p]).file_id == f && vals[p].workspace_id == WorkspaceId::MAIN
+}
+
+pub open spec fn distinct_ids(vals: Seq<ModuleInfo>) -> bool {
+    forall|p: int, q: int| 0 <= p < q < vals.len() ==> (#[trigger] vals[p]).file_id != (#[trigger] vals[q]).file_id
+}
+
+pub proof fn lemma_main_of_step(vals: Seq<ModuleInfo>, k: int)
+    requires 0 <= k < vals.len(),
+    ensures main_of(vals.take(k + 1)) == (if vals[k].workspace_id == WorkspaceId::MAIN { main_of(vals.take(k)).push(vals[k].file_id) } else { main_of(vals.take(k)) }),
+{
+    lemma_take_step(vals, k);
+}
+
+pub proof fn lemma_main_of(vals: Seq<ModuleInfo>)
+    ensures
+        forall|f: FileId| #[trigger] main_of(vals).contains(f) <==> from_main(vals, f),
+        distinct_ids(vals) ==> main_of(vals).no_duplicates(),
+    decreases vals.len(),
+{
+    let mv = main_of(vals);
+    if vals.len() == 0 {
+        assert forall|f: FileId| #[trigger] mv.contains(f) <==> from_main(vals, f) by {}
+    } else {
+        let pre = vals.drop_last();
+        let l = vals.last();
+        let n = pre.len() as int;
+        let mp = main_of(pre);
+        let is_m = l.workspace_id == WorkspaceId::MAIN;
+        lemma_main_of(pre);
+        assert forall|f: FileId| #[trigger] mv.contains(f) <==> from_main(vals, f) by {
+            if mv.contains(f) {
+                let j = choose|j: int| 0 <= j < mv.len() && mv[j] == f;
+                if is_m && j == mp.len() {
+                    assert(vals[n].file_id == f);
+                } else {
+                    assert(mp[j] == f);
+                    assert(mp.contains(f));
+                    let p = choose|p: int| 0 <= p < pre.len() && (#[trigger] pre[p]).file_id == f && pre[p].workspace_id == WorkspaceId::MAIN;
+                    assert(vals[p] == pre[p]);
+                }
+            }
+            if from_main(vals, f) {
+                let p = choose|p: int| 0 <= p < vals.len() && (#[trigger] vals[p]).file_id == f && vals[p].workspace_id == WorkspaceId::MAIN;
+                if p == n {
+                    assert(mv[mp.len() as int] == f);
+                } else {
+                    assert(pre[p] == vals[p]);
+                    assert(from_main(pre, f));
+                    assert(mp.contains(f));
+                    let j = choose|j: int| 0 <= j < mp.len() && mp[j] == f;
+                    assert(mv[j] == f);
+                }
+            }
+        }
+        if distinct_ids(vals) {
+            assert(distinct_ids(pre)) by {
+                assert forall|p: int, q: int| 0 <= p < q < pre.len() implies (#[trigger] pre[p]).file_id != (#[trigger] pre[q]).file_id by {
+                    assert(pre[p] == vals[p] && pre[q] == vals[q]);
+                }
+            }
+            if is_m {
+                if mp.contains(l.file_id) {
+                    let p = choose|p: int| 0 <= p < pre.len() && (#[trigger] pre[p]).file_id == l.file_id && pre[p].workspace_id == WorkspaceId::MAIN;
+                    assert(vals[p] == pre[p]);
+                    assert(vals[p].file_id != vals[n].file_id);
+                }
+                assert forall|i: int, j: int| 0 <= i < mv.len() && 0 <= j < mv.len() && i != j implies mv[i] != mv[j] by {
+                    if i < mp.len() { assert(mp.contains(mp[i])); }
+                    if j < mp.len() { assert(mp.contains(mp[j])); }
+                }
+            }
+        }
+    }
+}
+
+/// HashMap::values yields every value once (vstd: as many values as keys, the same set of values). With every ModuleInfo
+/// stored under its own id, collecting the ids of the main-workspace values gives exactly the main-workspace keys, each once.
+pub proof fn lemma_main_ids(m: Map<FileId, ModuleInfo>, vals: Seq<ModuleInfo>)
+    requires
+        forall|f: FileId| #[trigger] m.contains_key(f) ==> m[f].file_id == f,
+        vals.to_set() == m.values(), vals.len() == m.dom().len(),
+    ensures is_main_ids(m, main_of(vals)),
+{
+    let fids = vals.map_values(|v: ModuleInfo| v.file_id);
+    assert forall|f: FileId| fids.to_set().contains(f) <==> m.dom().contains(f) by {
+        if fids.to_set().contains(f) {
+            let i = choose|i: int| 0 <= i < fids.len() && fids[i] == f;
+            assert(vals.to_set().contains(vals[i]));
+            assert(m.values().contains(vals[i]));
+            let k = choose|k: FileId| m.contains_key(k) && m[k] == vals[i];
+            assert(k == f);
+        }
+        if m.dom().contains(f) {
+            assert(m.values().contains(m[f]));
+            assert(vals.to_set().contains(m[f]));
+            let i = choose|i: int| 0 <= i < vals.len() && vals[i] == m[f];
+            assert(fids[i] == f);
+        }
+    }
+    assert(fids.to_set() =~= m.dom());
+    fids.lemma_no_dup_set_cardinality();
+    assert(distinct_ids(vals)) by {
+        assert forall|p: int, q: int| 0 <= p < q < vals.len() implies (#[trigger] vals[p]).file_id != (#[trigger] vals[q]).file_id by {
+            assert(fids[p] == vals[p].file_id && fids[q] == vals[q].file_id);
+        }
+    }
+    lemma_main_of(vals);
+    let r = main_of(vals);
+    assert forall|f: FileId| #[trigger] r.contains(f) <==> (m.contains_key(f) && m[f].workspace_id == WorkspaceId::MAIN) by {
+        if r.contains(f) {
+            let p = choose|p: int| 0 <= p < vals.len() && (#[trigger] vals[p]).file_id == f && vals[p].workspace_id == WorkspaceId::MAIN;
+            assert(vals.to_set().contains(vals[p]));
+            assert(m.values().contains(vals[p]));
+            let k = choose|k: FileId| m.contains_key(k) && m[k] == vals[p];
+            assert(k == f);
+        }
+        if m.contains_key(f) && m[f].workspace_id == WorkspaceId::MAIN {
+            assert(m.values().contains(m[f]));
+            assert(vals.to_set().contains(m[f]));
+            let i = choose|i: int| 0 <= i < vals.len() && vals[i] == m[f];
+            assert(from_main(vals, f));
+        }
+    }
+}
+
+pub proof fn lemma_main_ids_empty(m: Map<FileId, ModuleInfo>)
+    ensures m.dom().len() == 0 ==> is_main_ids(m, Seq::<FileId>::empty()),
+{
+    if m.dom().len() == 0 {
+        m.dom().lemma_len0_is_empty();
+        assert forall|f: FileId| #[trigger] Seq::<FileId>::empty().contains(f) <==> (m.contains_key(f) && m[f].workspace_id == WorkspaceId::MAIN) by {
+            assert(!m.dom().contains(f));
+        }
+    }
+}
+
+/// `lemma_main_ids` at the last iteration of the loop (stated as an implication so that the call site needs no branch)
+pub proof fn lemma_main_ids_last(m: Map<FileId, ModuleInfo>, vals: Seq<ModuleInfo>, k: int)
+    requires
+        forall|f: FileId| #[trigger] m.contains_key(f) ==> m[f].file_id == f,
+        vals.to_set() == m.values(), vals.len() == m.dom().len(), 0 <= k < vals.len(),
+    ensures k + 1 == vals.len() ==> is_main_ids(m, main_of(vals.take(k + 1))),
+{
+    if k + 1 == vals.len() {
+        assert(vals.take(k + 1) =~= vals);
+        lemma_main_ids(m, vals);
+    }
+}
